@@ -318,8 +318,25 @@ def pvOfJsonF : List (String × JV) → List (String × PV)
   | (k, v) :: xs => (k, pvOfJson v) :: pvOfJsonF xs
 end
 
-/-- `default_scalar(...)`: `parse = _identity` -/
-def defaultScalarParse (_ : String) (v : JV) : ParseOut := .value (pvOfJson v)
+mutual
+/-- no NaN / ±Infinity anywhere inside the value (what `_transparent` walks through: lists and dict values, any depth) -/
+def jvAllFinite : JV → Bool
+  | .float t => (match pyFloat t with | some d => d.isFinite | none => true)
+  | .list l => jvAllFiniteL l
+  | .obj kvs => jvAllFiniteF kvs
+  | _ => true
+def jvAllFiniteL : List JV → Bool
+  | [] => true
+  | x :: xs => jvAllFinite x && jvAllFiniteL xs
+def jvAllFiniteF : List (String × JV) → Bool
+  | [] => true
+  | (_, v) :: xs => jvAllFinite v && jvAllFiniteF xs
+end
+
+/-- `default_scalar(...)`: `parse = _transparent` — the value as is, but NaN / ±Infinity at any depth is refused with the
+    ValueError `Float` uses (fix C10-H2; `defaultScalarParseRejectsNonFinite` is observed on the live `default_scalar`) -/
+def defaultScalarParse (_ : String) (v : JV) : ParseOut :=
+  if defaultScalarParseRejectsNonFinite && !jvAllFinite v then .refused else .value (pvOfJson v)
 
 mutual
 /-- `_untyped_literal` (scalars.py): the transparent conversion of a literal that `default_scalar` uses as its `parse_literal`:
